@@ -23,8 +23,9 @@ RULE = (
     "off-diagonal mass; distinct = hash of inputs."
 )
 ASSUMPTIONS = ["non-negative finite weights/entries", "pandas only as a container"]
-PER_CLASS = ["tpr", "fpr", "tnr", "fnr", "ppv", "npv", "fdr", "for_", "tp", "fn", "fp", "tn", "p", "n", "top", "ton", "topr", "tonr", "class_accuracy", "class_error_rate", "tar", "far"]
-PER_CLASS_CI = ["tpr_ci", "fnr_ci", "tnr_ci", "fpr_ci", "tar_ci"]
+PER_CLASS = ["tpr", "fpr", "tnr", "fnr", "ppv", "npv", "fdr", "for_", "tp", "fn", "fp", "tn", "p", "n", "top", "ton", "topr", "tonr", "class_accuracy", "class_error_rate", "tar", "far", "frr", "trr",
+             "acceptance_rate", "rejection_rate"]
+PER_CLASS_CI = ["tpr_ci", "fnr_ci", "tnr_ci", "fpr_ci", "tar_ci", "frr_ci", "trr_ci", "far_ci"]
 
 
 def install(ctx):
@@ -142,6 +143,8 @@ def execute(ctx, case):
         kw = {"alpha": case["alpha"]} if is_ci else {}
         v = np.asarray(getattr(c, nm)(**kw))
         dct = getattr(c, nm)(as_dict=True, **kw)
+        if not C(isinstance(dct, dict), "as_dict=True does not return a dict keyed by class", "cmx-asdict-type", metric=nm, got=type(dct).__name__):
+            continue
         exp_shape = (*lead, K) + ((2,) if is_ci else ())
         if not C(v.shape == exp_shape, "per-class metric has the wrong shape", "cmx-pc-shape", metric=nm, got=v.shape, expected=exp_shape):
             continue
